@@ -73,6 +73,7 @@ theorem next_eq (s : Maximum F) (x v : F) (h : WF s)
   have hv := Option.some.inj hv
   subst hv
   unfold next
+  try simp only [gen_helper]
   simp only [find_max_index_eq]
   rs_exec
   all_goals (first | omega | contradiction | exact ⟨_, rfl, Array.getElem?_eq_getElem _⟩)
@@ -112,6 +113,7 @@ theorem next_shape (s : Maximum F) (x : F) (h : WF s) :
 
 theorem nextBar_eq (s : Maximum F) (b : Bar F) : s.nextBar b = s.next b.high := by
   unfold nextBar
+  try simp only [gen_helper]
   cases s.next b.high <;> rfl
 
 theorem nextBar_total (s : Maximum F) (b : Bar F) (h : WF s) :
